@@ -110,3 +110,60 @@ func vK08aRename() {
 	vAssert(a1 == a2 && b1 == b2 && f1 == f2, "names given to cross-chunk imports do not depend on raw source indices (arrival order) or map iteration order")
 	vReach("end")
 }
+
+// K15f: minified names in a chunk. renameSymbolsInChunk (minify branch) gives
+// every top-level symbol of the chunk and every symbol imported from another
+// chunk a name; two different bindings visible at the chunk's top level must
+// not share a name, whether or not the imported binding is used by the chunk's
+// own code (a re-export through `export *` records no use).
+func vK15fChunkNames() {
+	c := hCtx(2, 3)
+	c.options.MinifyIdentifiers = true
+	syms := ast.NewSymbolMap(3)
+	short := []string{"a", "b", "e", "t", "value"}
+	impName := short[vChoose(len(short))]
+	nOwn := hLen(1, vParam("OWN", 2))
+	syms.SymbolsForSource[1] = []ast.Symbol{{OriginalName: impName, Link: ast.InvalidRef, Kind: ast.SymbolHoisted}}
+	var own []ast.Symbol
+	for i := 0; i < nOwn; i++ {
+		own = append(own, ast.Symbol{OriginalName: []string{"one", "two"}[i], Link: ast.InvalidRef, Kind: ast.SymbolHoisted})
+	}
+	syms.SymbolsForSource[2] = own
+	syms.SymbolsForSource[0] = []ast.Symbol{}
+	c.graph.Symbols = syms
+	refImp := ast.Ref{SourceIndex: 1, InnerIndex: 0}
+	for raw := 0; raw < 3; raw++ {
+		repr := &graph.JSRepr{}
+		repr.AST.ModuleScope = &js_ast.Scope{Members: map[string]js_ast.ScopeMember{}}
+		c.graph.Files[raw].InputFile.Repr = repr
+	}
+	reprF := c.graph.Files[2].InputFile.Repr.(*graph.JSRepr)
+	part := js_ast.Part{IsLive: true, SymbolUses: map[ast.Ref]js_ast.SymbolUse{}}
+	for i := 0; i < nOwn; i++ {
+		ref := ast.Ref{SourceIndex: 2, InnerIndex: uint32(i)}
+		reprF.AST.ModuleScope.Members[own[i].OriginalName] = js_ast.ScopeMember{Ref: ref}
+		part.DeclaredSymbols = append(part.DeclaredSymbols, js_ast.DeclaredSymbol{Ref: ref, IsTopLevel: true})
+		part.SymbolUses[ref] = js_ast.SymbolUse{CountEstimate: uint32(vU8())}
+	}
+	usesImport := vBool()
+	if usesImport {
+		part.SymbolUses[refImp] = js_ast.SymbolUse{CountEstimate: uint32(vU8())}
+	}
+	reprF.AST.Parts = []js_ast.Part{part}
+	c.graph.ReachableFiles = []uint32{0, 1, 2}
+	c.graph.StableSourceIndices = []uint32{0, 1, 2}
+	chunk := &c.chunks[0]
+	chunk.chunkRepr = &chunkReprJS{importsFromOtherChunks: map[uint32]crossChunkImportItemArray{1: {{ref: refImp}}}}
+	r := c.renameSymbolsInChunk(chunk, []uint32{2}, nil)
+	names := []string{r.NameForSymbol(refImp)}
+	for i := 0; i < nOwn; i++ {
+		names = append(names, r.NameForSymbol(ast.Ref{SourceIndex: 2, InnerIndex: uint32(i)}))
+	}
+	for i := range names {
+		vAssert(names[i] != "", "every binding gets a name")
+		for j := i + 1; j < len(names); j++ {
+			vAssert(names[i] != names[j], "a binding imported from another chunk and the chunk's own top-level bindings never share a minified name (duplicate declaration otherwise)")
+		}
+	}
+	vReach("end")
+}
